@@ -29,6 +29,7 @@ LEVEL_TEXT = ("Lean theorems for ALL step lists of one object's stream (any even
               ">= T after the server applied it), independent_of_foreign_count (same invariant, any number of foreign events/"
               "retirements in between), barrier_every_patch (every earlier own patch, not only the last), barrier_view (with per-object stream order: view >= patch, or timeout), not_delayed (indexing/"
               "raw-event/spawning stages precede the barrier, do not depend on the worker state, and a new arrival ends the sleep at once), "
+              "interrupted_never_achieved (a sleep ended early by an arrival or by the exiting watcher's pressure+EOS holds handlers back), "
               "disabled (T=0: nothing expected, never sleeps, held only for a pending patch), deadline_monotone, retire_after_deadline, "
               "never_arrives. All full theorems (no _partial). The model is hand-written; it is tied to the code by replaying "
               "every iteration of seeded whole-operator simulations; the wf hypotheses of the theorems are checked on the real traces. "
@@ -36,7 +37,7 @@ LEVEL_TEXT = ("Lean theorems for ALL step lists of one object's stream (any even
               "timers are not tracked by the mechanism (measured, see histogram background_patch).")
 THEOREMS = [("Kopf.Props.C07", "Kopf.C07." + n) for n in [
     "barrier", "independent_of_foreign_count", "barrier_every_patch", "barrier_view", "not_delayed", "disabled", "deadline_monotone",
-    "retire_after_deadline", "never_arrives"]]
+    "retire_after_deadline", "never_arrives", "interrupted_never_achieved"]]
 RULE = ("seeded whole-operator scenarios: T in {0, 0.25, 1, 5} s; request latency 1-64 ticks, response latency 0-48 ticks; echo delay of "
         "own writes in {0, < T, = T after the patch, = exactly the worker's deadline, > T}; foreign-event delay and jitter; 0-5 foreign "
         "edits before and 0-5 after each chosen own write (reactive offsets), slips right before a PATCH (422 -> remaining patch); create/"
@@ -359,9 +360,12 @@ def abstract(sc: dict, tr: dict) -> list[dict]:
                 add = must_block and not c7["blocked"] and not c7["ongoing"]
                 remove = (not must_block) and c7["blocked"]
                 required = bool(c["has_cause"] and c7["prematch"] and not add and not remove)
+                # the next item that raises the stream pressure: a further event, or (since fix f370f06) the
+                # end-of-stream marker of the exiting watcher
                 wake = None
-                if k + 1 < len(arrivals):
-                    wake = max(0, ticks(arrivals[k + 1][0]) - tmid)
+                nxt_items = [a for a in life["arrivals"][k + 1:] if len(a) < 3 or a[2]]
+                if nxt_items:
+                    wake = max(0, ticks(nxt_items[0][0]) - tmid)
                 patched = parse_ver(c["result_rv"])
                 tret = ticks(c["loop_t0"] + (c["t1"] - c["t0"]))
                 tp = tret
@@ -377,7 +381,8 @@ def abstract(sc: dict, tr: dict) -> list[dict]:
                 impl.append({"given": ticks(c["consistency_time"]),
                              "slept": None if s is None else [ticks(s["t1"]), bool(s["timed_out"])],
                              "entered": ticks(c7["pcc_t"]), "held": bool(required and not c7["matched"]),
-                             "first_handler": ticks(mine[0]["t"]) if mine else None})
+                             "first_handler": ticks(mine[0]["t"]) if mine else None,
+                             "eos_wake": bool(s is not None and not s["timed_out"] and nxt_items and nxt_items[0][1] == "EOS")})
                 where.append({"uid": uid, "cycle": c["i"]})
             if truncated:
                 break
@@ -449,6 +454,9 @@ def digest(sc: dict, tr: dict, tie: bool = True) -> dict:
     rec.count("latency_ticks", c7["latency"])
     rec.count("resp_latency_ticks", c7["resp_latency"])
     rec.count("foreign_edits", sum(1 for m in tr["marks"] if m.get("what") == "op" and m["op"][0] == "edit"))
+    nw = sum(int(l.get("nowait", 0)) for l in tr["lives"])
+    if nw:
+        rec.count("worker_wait", "timed-out wait found the backlog non-empty: event taken with get_nowait", nw)
     runs = abstract(sc, tr) if tie else []
     return {"hist": rec.hist, "fails": rec.fails, "runs": runs}
 
@@ -509,6 +517,8 @@ def evaluate(ctx: Ctx, scenarios: list[dict], results: list[dict], tie: bool = T
             ctx.count("barrier", "no deadline" if not shape["given"] else
                       ("slept:" + shape["slept"]) if shape["slept"] else "deadline set, no sleep (pending patch / not required / gone)")
             ctx.count("decision", "held back" if o["held"] else "change handlers entered" if o["entered"] is not None else "no changing cause")
+            if impl.get("eos_wake"):
+                ctx.count("barrier_sleep", "interrupted by the exiting watcher (pressure + EOS): held back")
             if shape["reset"]:
                 ctx.count("release", "by arrival of the expected version")
             if shape["slept"] == "timeout" and o["entered"] is not None:
